@@ -64,7 +64,8 @@ def _fmt_value(draw, fmt):
     raise AssertionError(fmt)
 
 @st.composite
-def string_schema(draw, dialect, text=TEXT):
+def string_schema(draw, dialect, text=None):
+    text = TEXT if text is None else text
     s = {"type": "string"}
     kind = draw(st.sampled_from(["plain", "plain", "pattern", "pattern", "format", "enum"]))
     if kind == "pattern":
@@ -89,8 +90,8 @@ def boolean_schema(draw, dialect):
     return s, w
 
 @st.composite
-def array_schema(draw, dialect, depth, primitives_only=False):
-    item_s, item_w = draw(schema(dialect, depth - 1, kinds=("integer", "number", "string", "boolean") if primitives_only else None))
+def array_schema(draw, dialect, depth, primitives_only=False, text=None):
+    item_s, item_w = draw(schema(dialect, depth - 1, kinds=("integer", "number", "string", "boolean") if primitives_only else None, text=text))
     n = draw(st.integers(0, 3))
     unique = draw(st.booleans()) and n <= 1
     w = [item_w] * n
@@ -102,11 +103,11 @@ def array_schema(draw, dialect, depth, primitives_only=False):
     return s, w
 
 @st.composite
-def object_schema(draw, dialect, depth, primitives_only=False, allow_readonly=True):
+def object_schema(draw, dialect, depth, primitives_only=False, allow_readonly=True, text=None):
     names = draw(st.lists(st.sampled_from(NAMES), max_size=4, unique=True))
     props, w, required = {}, {}, []
     for n in names:
-        ps, pw = draw(schema(dialect, depth - 1, kinds=("integer", "number", "string", "boolean") if primitives_only else None))
+        ps, pw = draw(schema(dialect, depth - 1, kinds=("integer", "number", "string", "boolean") if primitives_only else None, text=text))
         ro = allow_readonly and draw(st.integers(0, 9)) == 0
         if ro:
             ps = dict(ps); ps["readOnly"] = True
@@ -125,15 +126,15 @@ def object_schema(draw, dialect, depth, primitives_only=False, allow_readonly=Tr
     return s, w
 
 @st.composite
-def schema(draw, dialect, depth=2, kinds=None, allow_wrappers=True):
+def schema(draw, dialect, depth=2, kinds=None, allow_wrappers=True, text=None, primitives_only=False):
     pool = list(kinds) if kinds else ["integer", "number", "string", "string", "boolean"] + (["array", "object", "object"] if depth > 0 else [])
     kind = draw(st.sampled_from(pool))
     if kind == "integer": s, w = draw(integer_schema(dialect))
     elif kind == "number": s, w = draw(number_schema(dialect))
-    elif kind == "string": s, w = draw(string_schema(dialect))
+    elif kind == "string": s, w = draw(string_schema(dialect, text=text))
     elif kind == "boolean": s, w = draw(boolean_schema(dialect))
-    elif kind == "array": s, w = draw(array_schema(dialect, depth))
-    else: s, w = draw(object_schema(dialect, depth))
+    elif kind == "array": s, w = draw(array_schema(dialect, depth, primitives_only=primitives_only, text=text))
+    else: s, w = draw(object_schema(dialect, depth, primitives_only=primitives_only, text=text))
     if not allow_wrappers or dialect == "2.0" and kinds:
         return s, w
     wrap = draw(st.sampled_from([None, None, None, "nullable", "anyOf", "oneOf", "allOf"]))
